@@ -1110,6 +1110,144 @@ func c18Overlapping(c *Ctx) {
 	}
 }
 
+// ---------------------------------------------------------------- entropy faults
+//
+// A round function whose random source fails part-way must return an error
+// (never panic) and must leave the process in a state in which later sessions
+// still work: after every injected fault two overlapping sessions (the first
+// Round3 payload held while the second is garbled) must both end with
+// SHA-256(a xor b) and the held payload must not change.
+
+type c18FaultReader struct {
+	r    *RNG
+	left int
+}
+
+func (f *c18FaultReader) Read(p []byte) (int, error) {
+	if f.left <= 0 {
+		return 0, fmt.Errorf("entropy source failed")
+	}
+	if len(p) > f.left {
+		p = p[:f.left]
+	}
+	n, _ := f.r.Read(p)
+	f.left -= n
+	return n, nil
+}
+
+func c18EntropyFaults(c *Ctx) {
+	cv := c18Curves[1]
+	r := c.rng.Fork()
+	// three sessions taken through rounds 1 and 2: F receives the faults, A and B run afterwards
+	var ss [3]*c18Sess
+	for i := range ss {
+		ss[i] = c18NewSess(r, i, cv)
+		for st := 0; st < 2; st++ {
+			if err := c18SessStep(ss[i], false); err != nil {
+				c.Fail("c18:entropy-fault:setup", err.Error(), c18Replay{Seed: c.Seed, Curve: cv.name, What: err.Error()})
+				return
+			}
+		}
+	}
+	F, A, B := ss[0], ss[1], ss[2]
+	digest := func(s *c18Sess) [32]byte {
+		var x [32]byte
+		for i := range x {
+			x[i] = s.a[i] ^ s.b[i]
+		}
+		return sha256.Sum256(x[:])
+	}
+	// tail: A's Round3 payload is held (and snapshotted) while B is garbled
+	tail := func(fn string, k int) {
+		bad := ""
+		r3A, err := sha2pc.GarblerRound3(NewRNG(r.U64()), cv.c, A.gs, A.a, A.r2)
+		if err != nil {
+			bad = "GarblerRound3 of the first later session: " + err.Error()
+		}
+		var snap []byte
+		if bad == "" {
+			snap, _ = sha2pc.EncodeRound3(r3A)
+		}
+		r3B, errB := sha2pc.GarblerRound3(NewRNG(r.U64()), cv.c, B.gs, B.a, B.r2)
+		if bad == "" && errB != nil {
+			bad = "GarblerRound3 of the second later session: " + errB.Error()
+		}
+		if bad == "" {
+			if now, _ := sha2pc.EncodeRound3(r3A); !bytes.Equal(now, snap) {
+				bad = "the held Round3 payload of the first later session changed when the second session was garbled (the two payloads share memory)"
+			}
+		}
+		if bad == "" {
+			if d, err := sha2pc.EvaluatorRound4(cv.c, A.es, r3A); err != nil {
+				bad = "EvaluatorRound4 of the first later session: " + err.Error()
+			} else if d != digest(A) {
+				bad = "first later session: digest differs from SHA-256(a xor b)"
+			}
+		}
+		if bad == "" {
+			if d, err := sha2pc.EvaluatorRound4(cv.c, B.es, r3B); err != nil {
+				bad = "EvaluatorRound4 of the second later session: " + err.Error()
+			} else if d != digest(B) {
+				bad = "second later session: digest differs from SHA-256(a xor b)"
+			}
+		}
+		c.Eval(fmt.Sprintf("fault-tail|%s|%d|%d", fn, k, r.U64()), true)
+		if bad != "" {
+			what := fmt.Sprintf("after %s failed with its random source exhausted after %d bytes: %s", fn, k, bad)
+			c.Fail(fmt.Sprintf("c18:%s:entropy-fault@%d:later-sessions-corrupted", fn, k), what,
+				c18Replay{Seed: c.Seed, Curve: cv.name, Kind: fn, What: what,
+					Plan: fmt.Sprintf("%s with a reader failing after %d bytes, then two overlapping sessions (first Round3 payload held while the second garbles)", fn, k)})
+		}
+	}
+	fault := func(fn string, k int, need int, call func(rd io.Reader) error) {
+		cls, msg := c18Guard(func() error { return call(&c18FaultReader{r: NewRNG(r.U64()), left: k}) })
+		c.Eval(fmt.Sprintf("fault|%s|%d", fn, k), true)
+		c.Hist(fmt.Sprintf("entropy-fault:%s:%s", fn, []string{"ok", "err", "panic"}[cls]))
+		rep := c18Replay{Seed: c.Seed, Curve: cv.name, Kind: fn, Plan: fmt.Sprintf("reader failing after %d bytes", k)}
+		if cls == clsPanic {
+			rep.What = fmt.Sprintf("%s panics when its random source fails after %d bytes: %s", fn, k, msg)
+			c.Fail(fmt.Sprintf("c18:%s:entropy-fault@%d:panic", fn, k), rep.What, rep)
+		}
+		if cls == clsOk && k < need {
+			rep.What = fmt.Sprintf("%s succeeds although its random source failed after %d bytes (it needs at least %d)", fn, k, need)
+			c.Fail(fmt.Sprintf("c18:%s:entropy-fault@%d:no-error", fn, k), rep.What, rep)
+		}
+	}
+	// GarblerRound3: 32 key bytes, 16 bytes R, 512 input wires x 16 bytes
+	need3 := 32 + 16 + 512*16
+	sweep := []int{0, 16, 31, 32, 47, 48, 49, 48 + 16, 48 + 16*255, 48 + 16*256 + 8, need3 - 1, need3}
+	if c.Thorough() {
+		for j := 0; j < 40; j++ {
+			sweep = append(sweep, r.Intn(need3+64))
+		}
+	}
+	for _, k := range sweep {
+		// ot.NewLabel uses a bare Read: a short final read (1..15 bytes) is taken as a label,
+		// so only k <= need3-16 is certain to be an error
+		fault("GarblerRound3", k, need3-15, func(rd io.Reader) error {
+			_, err := sha2pc.GarblerRound3(rd, cv.c, F.gs, F.a, F.r2)
+			return err
+		})
+		for rep := 0; rep < c.N(2, 4); rep++ { // sync.Pool reuse is not guaranteed: repeat the tail
+			tail("GarblerRound3", k)
+		}
+	}
+	// GarblerRound1 (scalar, 8-byte session id) and EvaluatorRound2 (256 scalars)
+	for _, k := range []int{0, 16, 31, 32, 36, 39} {
+		fault("GarblerRound1", k, 40, func(rd io.Reader) error {
+			_, _, err := sha2pc.GarblerRound1(rd, cv.c)
+			return err
+		})
+	}
+	for _, k := range []int{0, 31, 32, 33, 32 * 100, 32*256 - 1} {
+		fault("EvaluatorRound2", k, 32*256, func(rd io.Reader) error {
+			_, _, err := sha2pc.EvaluatorRound2(rd, cv.c, F.r1, F.b)
+			return err
+		})
+	}
+	tail("EvaluatorRound2", 32*256-1)
+}
+
 // ---------------------------------------------------------------- op histories
 //
 // A process holding several sessions calls an encoder several times and keeps
@@ -1577,6 +1715,7 @@ func runC18(c *Ctx) error {
 
 	// ---- several sessions / a round-3 retry in one garbler process
 	c18Overlapping(c)
+	c18EntropyFaults(c)
 
 	// ---- (a) protocol runs, (b) decode cases, (c) mutations
 	plans := []c18Plan{
